@@ -236,6 +236,9 @@ fn header_indexed<const N: usize>() {
     v.set_version(kani::any());
     v.set_src_isd(crate::identifier::isd::Isd(kani::any()));
     v.set_dst_as(crate::identifier::asn::Asn(kani::any()));
+    v.set_src_as(crate::identifier::asn::Asn(kani::any()));
+    v.set_dst_isd(crate::identifier::isd::Isd(kani::any()));
+    v.set_next_header(crate::payload::ProtocolNumber::from(kani::any::<u8>()));
     match v.path_mut() {
         ScionDpPathViewRefMut::Empty => {}
         ScionDpPathViewRefMut::Standard(p) => {
@@ -266,6 +269,18 @@ fn header_indexed<const N: usize>() {
                 let _ = (h.ingress_scmp_alert(i), h.egress_scmp_alert(i), h.expiry_timestamp(i), h.ingress_interface(i), h.egress_interface(i));
             }
             let _ = p.calculate_segment_index(k);
+            let _ = (p.seg0_len(), p.seg1_len(), p.seg2_len(), p.curr_hop_field_idx(), p.curr_info_field_idx());
+            let n_inf = p.info_fields().len();
+            let n_hop = p.hop_fields().len();
+            assert!(n_inf <= 3 && 4 + 8 * n_inf + 12 * n_hop == p.as_slice().len(), "info/hop field slices do not tile the path");
+            if let Some(i) = p.info_fields_mut().first_mut() {
+                assert!(within(all, i.as_slice()));
+                let _ = i.segment_id();
+            }
+            if let Some(h) = p.hop_fields_mut().last_mut() {
+                assert!(within(all, h.as_slice()), "last hop field outside the header");
+                let _ = h.cons_ingress();
+            }
             if let Some(r) = p.checked_hop_field_range(k) {
                 assert!(r.end <= p.as_slice().len());
             }
@@ -276,6 +291,9 @@ fn header_indexed<const N: usize>() {
         ScionDpPathViewRefMut::OneHop(p) => {
             assert!(within(all, p.as_slice()), "one-hop path outside the header");
             let _ = (p.info_field().timestamp(), p.hop_fields()[1].cons_egress());
+            let [h1, h2] = p.mut_hop_fields();
+            assert!(within(all, h1.as_slice()) && within(all, h2.as_slice()), "one-hop hop fields outside the header");
+            h2.set_cons_egress(kani::any());
         }
         ScionDpPathViewRefMut::Unsupported { buf, .. } => {
             assert!(within(all, buf), "unsupported path bytes outside the header");
